@@ -237,8 +237,8 @@ def run_property(rep, pid, budget_s=None):
             # a sentinel was provable on *some* path; harmless for infeasible paths that survived pruning, but
             # fatal when every instance of a sentinel is provable
             sn = {}
-            for name, res in r.get('sentinels', []):
-                sn.setdefault(name, []).append(res)
+            for name, sres in r.get('sentinels', []):
+                sn.setdefault(name, []).append(sres)
             dead = [n for n, rs in sn.items() if all(x == 'unsat' for x in rs)]
             if dead:
                 rep.error('%s: vacuous - sentinel(s) provable: %s' % (key, ', '.join(d.split('::')[1] for d in dead)))
